@@ -996,6 +996,9 @@ def part_formats(run, rng, rs, fmts):
 
     D = scaled_values(rs, (1, ns, 3), 0.05)
     Fv = scaled_values(rs, (1, ns, 3), 30.0)
+    for site_ in ("file_IO._get_FORCE_SETS_lines_type2", "file_IO.get_FORCE_CONSTANTS_lines", "file_IO._get_FORCE_SETS_lines_type1"):
+        if not prec(site_):
+            run.count("intermediate hook unavailable: format-table site %s (renamed?); formats judged by the round trips only" % site_, section="correspondence")
     ks = prec("file_IO._get_FORCE_SETS_lines_type2")
     if ks:
         check("file_IO._get_FORCE_SETS_lines_type2", file_IO.get_FORCE_SETS_lines({"displacements": D, "forces": Fv}),
